@@ -424,6 +424,11 @@ impl World {
             if c.max_frame_size.is_none() && r.gen_bool(0.2) {
                 c.max_frame_size = Some(64 << 20);
             }
+            // the connectivity check runs often (scenarios that leave it at base_config's hour
+            // have no High-affinity peer with an address, so there is nothing for it to dial)
+            if c.connectivity_check_interval_ms == Some(3_600_000) && r.gen_bool(0.25) {
+                c.connectivity_check_interval_ms = Some(r.gen_range(50..5_000));
+            }
             if let Some(q) = c.quic.as_mut() {
                 if q.max_concurrent_uni_streams.is_none() && r.gen_bool(0.2) {
                     q.max_concurrent_uni_streams = Some(r.gen_range(1..4));
